@@ -128,15 +128,22 @@ def run(eng, R):
     rb = eng.cfunc(p.method(H, "rebin"))
     grb = eng.cfg(rb)
 
+    # a local that only names the pending list (`_out = self._unprocessed_entries; _out += ...` extends the same list in place)
+    pend_alias = {a.targets[0].id for a in ast.walk(rb.node) if isinstance(a, ast.Assign) and len(a.targets) == 1 and isinstance(a.targets[0], ast.Name) and self_attr(a.value) == "_unprocessed_entries"}
+    pend_alias = {k for k in pend_alias if sum(1 for a in ast.walk(rb.node) if isinstance(a, ast.Assign) and any(isinstance(t, ast.Name) and t.id == k for t in a.targets)) == 1}
+
+    def is_pending(e):
+        return self_attr(e) == "_unprocessed_entries" or (isinstance(e, ast.Name) and e.id in pend_alias)
+
     def requeue(n):
         st = n.stmt
-        if n.kind == "stmt" and isinstance(st, ast.AugAssign) and isinstance(st.op, ast.Add) and self_attr(st.target) == "_unprocessed_entries" and self_attr(st.value) == "_processed_entries":
+        if n.kind == "stmt" and isinstance(st, ast.AugAssign) and isinstance(st.op, ast.Add) and is_pending(st.target) and self_attr(st.value) == "_processed_entries":
             return True
         if n.kind == "stmt" and isinstance(st, ast.Assign) and any(self_attr(t) == "_unprocessed_entries" for t in st.targets):
             txt = ast.unparse(st.value)
             return "self._processed_entries" in txt and "self._unprocessed_entries" in txt and isinstance(st.value, ast.BinOp) and isinstance(st.value.op, ast.Add)
         for c in eng.calls_in_parts(n.ast_parts()):
-            if isinstance(c.func, ast.Attribute) and c.func.attr == "extend" and self_attr(c.func.value) == "_unprocessed_entries" and c.args and self_attr(c.args[0]) == "_processed_entries":
+            if isinstance(c.func, ast.Attribute) and c.func.attr == "extend" and is_pending(c.func.value) and c.args and self_attr(c.args[0]) == "_processed_entries":
                 return True
         return False
 
